@@ -52,7 +52,7 @@ META = {
 
 
 # ------------------------------------------------------------------------------------------------
-def model_run(sexprs, fuel=3000, timeout=1200):
+def model_run(sexprs, fuel=1500, timeout=600):
     """-> list of {src, ref:{expect,out}, mech:{...}, mechb:{...}} (bin/c08_model), chunked over the cores"""
     common.ensure_model(PROP)
     exe = common.model_bin(PROP)
